@@ -69,7 +69,41 @@ class _Scope:
         self.funcs = set()
 
 
-def _collect(body):
+_MUTATORS = {'append', 'extend', 'insert', 'pop', 'remove', 'clear', 'update',
+             'setdefault', 'sort', 'reverse', 'add', 'discard', 'popitem',
+             '__setitem__', '__delitem__'}
+
+
+def _mutated_names(tree):
+    """Identifiers (bare names and attribute names) that are mutated in
+    place somewhere in the module: not literal tables."""
+    out = set()
+
+    def ident(x):
+        if isinstance(x, ast.Name):
+            return x.id
+        if isinstance(x, ast.Attribute):
+            return x.attr
+        return None
+    for n in ast.walk(tree):
+        if isinstance(n, ast.Call) and isinstance(n.func, ast.Attribute) and \
+                n.func.attr in _MUTATORS:
+            i = ident(n.func.value)
+            if i:
+                out.add(i)
+        elif isinstance(n, ast.Subscript) and isinstance(
+                n.ctx, (ast.Store, ast.Del)):
+            i = ident(n.value)
+            if i:
+                out.add(i)
+        elif isinstance(n, ast.AugAssign):
+            i = ident(n.target)
+            if i:
+                out.add(i)
+    return out
+
+
+def _collect(body, mutated=frozenset()):
     sc = _Scope()
     for st in body:
         if isinstance(st, ast.Assign) and len(st.targets) == 1 and \
@@ -86,6 +120,9 @@ def _collect(body):
     for n, c in sc.counts.items():
         if c != 1:
             sc.tables.pop(n, None)
+    for n in list(sc.tables):
+        if n in mutated and not isinstance(sc.tables[n], ast.Tuple):
+            sc.tables.pop(n)
     return sc
 
 
@@ -316,8 +353,9 @@ def _loads(nodes):
 
 
 class _Unroller:
-    def __init__(self, module_scope):
+    def __init__(self, module_scope, mutated=frozenset()):
         self.mod = module_scope
+        self.mutated = mutated
         self.classes = {}      # class name -> _Scope
         self.count = 0
         self.fn_tables = {}    # tables bound once in the current function
@@ -369,7 +407,7 @@ class _Unroller:
     def run(self, tree):
         for st in tree.body:
             if isinstance(st, ast.ClassDef):
-                sc = self.classes[st.name] = _collect(st.body)
+                sc = self.classes[st.name] = _collect(st.body, self.mutated)
                 # class C(namedtuple('C', ['a', 'b'])): C._fields
                 for b in st.bases:
                     if isinstance(b, ast.Call) and (
@@ -526,7 +564,7 @@ class _Unroller:
                 for st in body]
         for i, st in enumerate(body):
             if isinstance(st, ast.ClassDef):
-                sc = self.classes.get(st.name) or _collect(st.body)
+                sc = self.classes.get(st.name) or _collect(st.body, self.mutated)
                 self._block_owner(st, sc, set())
                 out.append(st)
                 continue
@@ -540,7 +578,7 @@ class _Unroller:
                 names |= _stores(st.body)
                 saved = self.fn_tables
                 self.fn_tables = dict(saved)
-                self.fn_tables.update(_collect(st.body).tables)
+                self.fn_tables.update(_collect(st.body, self.mutated).tables)
                 self._block_owner(st, cls_scope, names | local_names)
                 self.fn_tables = saved
                 out.append(st)
@@ -823,7 +861,8 @@ class _Functional(ast.NodeTransformer):
 
 def normalize(tree):
     """Rewrite `tree` in place; returns the number of loops unrolled."""
-    u = _Unroller(_collect(tree.body))
+    mutated = _mutated_names(tree)
+    u = _Unroller(_collect(tree.body, mutated), mutated)
     try:
         fx = _Functional()
         fx.visit(tree)
